@@ -6,7 +6,7 @@ open Ww.Model.Retry
 
 /-- tolerance (µs) for one attempt of the real library against the ideal schedule: timers fire late, never early (2 ms for clock granularity) -/
 def retryEarly : Nat := 2000
-def retryLate : Nat := 150000
+def retryLate : Nat := 400000
 
 def handleRetry (l : Line) : List Verdict :=
   let r : Option (List Verdict) := do
